@@ -12,9 +12,12 @@ structure WF (st : State) : Prop where
   sids_nodup : (st.table.map (·.1)).Nodup
   oids_nodup : (st.table.map (·.2)).Nodup
   cache_sid : ∀ p ∈ st.cache, p.2.sid = p.1
+  /-- no registered handler has both directions marked complete (a channel whose two directions
+  are closed is unregistered in the same step) -/
+  chan_open : ∀ p ∈ st.table, ∀ s, st.obj p.2 = some s → ¬ (s.sentComplete = true ∧ s.recvComplete = true)
 
 theorem wf_init (first : Nat) (lp : Bool) : WF (init first lp) :=
-  ⟨by simp [init], by simp [init], by simp [init], by simp [init]⟩
+  ⟨by simp [init], by simp [init], by simp [init], by simp [init], by simp [init]⟩
 
 /-! ### primitives -/
 
@@ -30,19 +33,53 @@ theorem obj_lt (st : State) (oid : Nat) (s : Stream) (h : st.obj oid = some s) :
   simp only [State.obj] at h
   exact (List.getElem?_eq_some_iff.mp h).1
 
-theorem wf_setObj (st : State) (h : WF st) (oid : Nat) (s s' : Stream) (ho : st.obj oid = some s) (hs : s'.sid = s.sid) :
+theorem finish_heap (st : State) (sid : Nat) : (st.finish sid).heap = st.heap := rfl
+theorem finish_obj (st : State) (sid oid : Nat) : (st.finish sid).obj oid = st.obj oid := rfl
+
+theorem wf_setObj (st : State) (h : WF st) (oid : Nat) (s s' : Stream) (ho : st.obj oid = some s) (hs : s'.sid = s.sid)
+    (hf : s'.sentComplete = s.sentComplete ∧ s'.recvComplete = s.recvComplete) :
     WF (st.setObj oid s') := by
-  refine ⟨?_, h.sids_nodup, h.oids_nodup, h.cache_sid⟩
-  intro p hp
-  obtain ⟨x, hx, hxs⟩ := h.table_obj p hp
-  by_cases hj : p.2 = oid
-  · refine ⟨s', ?_, ?_⟩
-    · rw [hj]; exact obj_setObj_same st oid s' (obj_lt st oid s ho)
-    · rw [hj] at hx; rw [ho] at hx; cases hx; rw [hs, hxs]
-  · exact ⟨x, by rw [obj_setObj_ne st oid p.2 s' hj]; exact hx, hxs⟩
+  refine ⟨?_, h.sids_nodup, h.oids_nodup, h.cache_sid, ?_⟩
+  · intro p hp
+    obtain ⟨x, hx, hxs⟩ := h.table_obj p hp
+    by_cases hj : p.2 = oid
+    · refine ⟨s', ?_, ?_⟩
+      · rw [hj]; exact obj_setObj_same st oid s' (obj_lt st oid s ho)
+      · rw [hj] at hx; rw [ho] at hx; cases hx; rw [hs, hxs]
+    · exact ⟨x, by rw [obj_setObj_ne st oid p.2 s' hj]; exact hx, hxs⟩
+  · intro p hp x hx
+    by_cases hj : p.2 = oid
+    · rw [hj, obj_setObj_same st oid s' (obj_lt st oid s ho)] at hx
+      cases hx
+      rw [hf.1, hf.2]
+      exact h.chan_open p hp s (by rw [hj]; exact ho)
+    · rw [obj_setObj_ne st oid p.2 s' hj] at hx
+      exact h.chan_open p hp x hx
+
+/-- an object updated and its stream unregistered in the same step: any update is fine -/
+theorem wf_setObj_finish (st : State) (h : WF st) (oid : Nat) (s s' : Stream) (ho : st.obj oid = some s) (hs : s'.sid = s.sid) :
+    WF ((st.setObj oid s').finish s.sid) := by
+  have hne : ∀ p ∈ st.table, p.1 ≠ s.sid → p.2 ≠ oid := by
+    intro p hp hk e
+    obtain ⟨x, hx, hxs⟩ := h.table_obj p hp
+    rw [e, ho] at hx; cases hx; exact hk hxs.symm
+  refine ⟨?_, ?_, ?_, ?_, ?_⟩
+  · intro p hp
+    simp only [State.finish, State.setObj, List.mem_filter, bne_iff_ne] at hp
+    obtain ⟨x, hx, hxs⟩ := h.table_obj p hp.1
+    exact ⟨x, by rw [finish_obj, obj_setObj_ne st oid p.2 s' (hne p hp.1 hp.2)]; exact hx, hxs⟩
+  · exact List.Nodup.sublist (List.Sublist.map _ List.filter_sublist) h.sids_nodup
+  · exact List.Nodup.sublist (List.Sublist.map _ List.filter_sublist) h.oids_nodup
+  · intro p hp
+    simp only [State.finish, State.setObj, List.mem_filter] at hp
+    exact h.cache_sid p hp.1
+  · intro p hp x hx
+    simp only [State.finish, State.setObj, List.mem_filter, bne_iff_ne] at hp
+    rw [finish_obj, obj_setObj_ne st oid p.2 s' (hne p hp.1 hp.2)] at hx
+    exact h.chan_open p hp.1 x hx
 
 theorem wf_finish (st : State) (h : WF st) (sid : Nat) : WF (st.finish sid) := by
-  refine ⟨?_, ?_, ?_, ?_⟩
+  refine ⟨?_, ?_, ?_, ?_, ?_⟩
   · intro p hp
     simp only [State.finish, List.mem_filter] at hp
     exact h.table_obj p hp.1
@@ -53,16 +90,18 @@ theorem wf_finish (st : State) (h : WF st) (sid : Nat) : WF (st.finish sid) := b
   · intro p hp
     simp only [State.finish, List.mem_filter] at hp
     exact h.cache_sid p hp.1
+  · intro p hp x hx
+    simp only [State.finish, List.mem_filter] at hp
+    exact h.chan_open p hp.1 x hx
 
-theorem finish_heap (st : State) (sid : Nat) : (st.finish sid).heap = st.heap := rfl
-theorem finish_obj (st : State) (sid oid : Nat) : (st.finish sid).obj oid = st.obj oid := rfl
 
-theorem wf_register (st : State) (h : WF st) (s : Stream) : WF (st.register s).1 := by
+theorem wf_register (st : State) (h : WF st) (s : Stream) (hn : ¬ (s.sentComplete = true ∧ s.recvComplete = true)) :
+    WF (st.register s).1 := by
   have hoids : ∀ p ∈ st.table, p.2 < st.heap.length := by
     intro p hp
     obtain ⟨x, hx, _⟩ := h.table_obj p hp
     exact obj_lt st p.2 x hx
-  refine ⟨?_, ?_, ?_, h.cache_sid⟩
+  refine ⟨?_, ?_, ?_, h.cache_sid, ?_⟩
   · intro p hp
     simp only [State.register, List.mem_append, List.mem_filter, List.mem_singleton] at hp
     rcases hp with ⟨hp, _⟩ | rfl
@@ -72,6 +111,17 @@ theorem wf_register (st : State) (h : WF st) (s : Stream) : WF (st.register s).1
       rw [List.getElem?_append_left (hoids p hp)]
       exact hx
     · exact ⟨s, by simp [State.register, State.obj], rfl⟩
+  rotate_left 2
+  · intro p hp x hx
+    simp only [State.register, List.mem_append, List.mem_filter, List.mem_singleton] at hp
+    rcases hp with ⟨hp, _⟩ | rfl
+    · have hlt := hoids p hp
+      simp only [State.register, State.obj] at hx
+      rw [List.getElem?_append_left hlt] at hx
+      exact h.chan_open p hp x hx
+    · simp only [State.register, State.obj, List.getElem?_append_right (Nat.le_refl _), Nat.sub_self, List.getElem?_cons_zero,
+        Option.some.injEq] at hx
+      rw [← hx]; exact hn
   · simp only [State.register, List.map_append, List.map_cons, List.map_nil]
     rw [List.nodup_append]
     refine ⟨List.Nodup.sublist (List.Sublist.map _ List.filter_sublist) h.sids_nodup, by simp, ?_⟩
@@ -94,17 +144,35 @@ theorem wf_register (st : State) (h : WF st) (s : Stream) : WF (st.register s).1
 
 theorem wf_markChannel (st : State) (h : WF st) (oid : Nat) (s : Stream) (ho : st.obj oid = some s) (r t : Bool) :
     WF (markChannel st oid s r t) := by
-  have := wf_setObj st h oid s { s with recvComplete := s.recvComplete || r, sentComplete := s.sentComplete || t } ho rfl
   simp only [markChannel]
   by_cases hb : ((s.recvComplete || r) && (s.sentComplete || t)) = true
-  · rw [if_pos hb]; exact wf_finish _ this _
-  · rw [if_neg hb]; exact this
+  · rw [if_pos hb]
+    exact wf_setObj_finish st h oid s _ ho rfl
+  · rw [if_neg hb]
+    -- not both complete: the updated object keeps the invariant
+    refine ⟨?_, h.sids_nodup, h.oids_nodup, h.cache_sid, ?_⟩
+    · intro p hp
+      obtain ⟨x, hx, hxs⟩ := h.table_obj p hp
+      by_cases hj : p.2 = oid
+      · refine ⟨_, by rw [hj]; exact obj_setObj_same st oid _ (obj_lt st oid s ho), ?_⟩
+        rw [hj] at hx; rw [ho] at hx; cases hx; exact hxs
+      · exact ⟨x, by rw [obj_setObj_ne st oid p.2 _ hj]; exact hx, hxs⟩
+    · intro p hp x hx
+      by_cases hj : p.2 = oid
+      · rw [hj, obj_setObj_same st oid _ (obj_lt st oid s ho)] at hx
+        cases hx
+        simp only
+        intro hboth
+        apply hb
+        simp [hboth.1, hboth.2]
+      · rw [obj_setObj_ne st oid p.2 _ hj] at hx
+        exact h.chan_open p hp x hx
 
 theorem wf_closed (st : State) (h : WF st) (b : Bool) : WF { st with closed := b } :=
-  ⟨h.table_obj, h.sids_nodup, h.oids_nodup, h.cache_sid⟩
+  ⟨h.table_obj, h.sids_nodup, h.oids_nodup, h.cache_sid, h.chan_open⟩
 
 theorem wf_cur (st : State) (h : WF st) (c : Nat) : WF { st with cur := c } :=
-  ⟨h.table_obj, h.sids_nodup, h.oids_nodup, h.cache_sid⟩
+  ⟨h.table_obj, h.sids_nodup, h.oids_nodup, h.cache_sid, h.chan_open⟩
 
 end RSocketModel.Engine
 
@@ -145,10 +213,11 @@ macro_rules
 macro_rules
   | `(tactic| wf_close1) => `(tactic| first
     | assumption
+    | exact wf_setObj_finish _ (by wf_close) _ _ _ (by first | assumption | exact obj_register _ _) (by rfl)
     | exact wf_finish _ (by wf_close) _
     | exact wf_markChannel _ (by wf_close) _ _ (by first | assumption | exact obj_setObj_self _ _ _ _ (by first | assumption | exact obj_register _ _) | exact obj_register _ _) _ _
-    | exact wf_setObj _ (by wf_close) _ _ _ (by first | assumption | exact obj_register _ _) (by rfl)
-    | exact wf_register _ (by wf_close) _
+    | exact wf_setObj _ (by wf_close) _ _ _ (by first | assumption | exact obj_register _ _) (by rfl) (by simp)
+    | exact wf_register _ (by wf_close) _ (by simp)
     | exact wf_closed _ (by wf_close) _
     | exact wf_cur _ (by wf_close) _)
 
@@ -287,7 +356,7 @@ theorem cache_find (st : State) (h : WF st) (sid : Nat) (c : Frame)
 
 theorem wf_cache_set (st : State) (h : WF st) (sid : Nat) (m : Frame) (hm : m.sid = sid) :
     WF { st with cache := st.cache.filter (·.1 != sid) ++ [(sid, m)] } := by
-  refine ⟨h.table_obj, h.sids_nodup, h.oids_nodup, ?_⟩
+  refine ⟨h.table_obj, h.sids_nodup, h.oids_nodup, ?_, h.chan_open⟩
   intro p hp
   simp only [List.mem_append, List.mem_filter, List.mem_singleton] at hp
   rcases hp with ⟨hp, _⟩ | rfl
@@ -296,7 +365,7 @@ theorem wf_cache_set (st : State) (h : WF st) (sid : Nat) (m : Frame) (hm : m.si
 
 theorem wf_cache_del (st : State) (h : WF st) (sid : Nat) :
     WF { st with cache := st.cache.filter (·.1 != sid) } := by
-  refine ⟨h.table_obj, h.sids_nodup, h.oids_nodup, ?_⟩
+  refine ⟨h.table_obj, h.sids_nodup, h.oids_nodup, ?_, h.chan_open⟩
   intro p hp
   simp only [List.mem_filter] at hp
   exact h.cache_sid p hp.1
@@ -367,7 +436,7 @@ theorem wf_handleByType (st : State) (h : WF st) (f : Frame) (b : Behaviour) : W
       · exact h
       · -- a freshly registered channel responder, then up to three `markChannel`s on it
         generalize hreg : st.register { kind := .chResp, sid := f.sid, hasPub := hasPub, subscribed := hasSub, setupDone := true } = r
-        have hw : WF r.1 := by rw [← hreg]; exact wf_register st h _
+        have hw : WF r.1 := by rw [← hreg]; exact wf_register st h _ (by simp)
         have ho : r.1.obj r.2 = some { kind := .chResp, sid := f.sid, hasPub := hasPub, subscribed := hasSub, setupDone := true } := by
           rw [← hreg]; exact obj_register st _
         rcases r with ⟨st0, oid⟩
@@ -430,20 +499,34 @@ theorem wf_recvStep (st : State) (h : WF st) (f : Frame) (b : Behaviour) : WF (r
           · exact hw
           · exact wf_frameReceived st' hw _ _ (by assumption) _
 
-theorem wf_stopOne (st : State) (h : WF st) (sid oid : Nat) : WF (stopOne st sid oid).1 := by
+theorem wf_stopOne (st : State) (h : WF st) (sid oid : Nat) (hm : (sid, oid) ∈ st.table) : WF (stopOne st sid oid).1 := by
+  obtain ⟨s0, hs0, hsid⟩ := h.table_obj (sid, oid) hm
+  simp only at hs0 hsid
   unfold stopOne
-  split
-  · wf_close
-  · split <;> (try split) <;> wf_close
+  rw [hs0]
+  simp only
+  subst hsid
+  split <;> (try split) <;> wf_close
 
-theorem wf_stopAll (l : List (Nat × Nat)) : ∀ (st : State), WF st → WF (stopAll st l).1 := by
+theorem wf_stopAll (l : List (Nat × Nat)) : ∀ (st : State), WF st → (∀ p ∈ l, p ∈ st.table) → (l.map (·.1)).Nodup →
+    WF (stopAll st l).1 := by
   induction l with
-  | nil => intro st h; exact h
+  | nil => intro st h _ _; exact h
   | cons p rest ih =>
-    intro st h
+    intro st h hmem hnd
     obtain ⟨sid, oid⟩ := p
     simp only [stopAll]
-    exact ih _ (wf_stopOne st h sid oid)
+    simp only [List.map_cons, List.nodup_cons] at hnd
+    have hw := wf_stopOne st h sid oid (hmem (sid, oid) (by simp))
+    refine ih _ hw ?_ hnd.2
+    intro q hq
+    have hqt := hmem q (by simp [hq])
+    have hne : q.1 ≠ sid := by
+      intro e; apply hnd.1; rw [← e]; exact List.mem_map_of_mem hq
+    have htab : (stopOne st sid oid).1.table = st.table.filter (·.1 != sid) := by
+      unfold stopOne; (repeat' split) <;> rfl
+    rw [htab, List.mem_filter]
+    exact ⟨hqt, by simpa using hne⟩
 
 theorem wf_step (st : State) (h : WF st) (ev : Ev) : WF (step st ev).1 := by
   unfold step
@@ -453,8 +536,8 @@ theorem wf_step (st : State) (h : WF st) (ev : Ev) : WF (step st ev).1 := by
     unfold lostStep
     split
     · exact h
-    · exact wf_closed _ (wf_stopAll _ st h) _
-  case stopStreams => exact wf_stopAll _ st h
+    · exact wf_closed _ (wf_stopAll _ st h (fun _ hp => hp) h.sids_nodup) _
+  case stopStreams => exact wf_stopAll _ st h (fun _ hp => hp) h.sids_nodup
   all_goals exact wf_apiStep st h _
 
 theorem wf_run (evs : List Ev) : ∀ (st : State), WF st → WF (run st evs).1 := by
